@@ -1019,8 +1019,10 @@ func packCase(sp *spec) {
 					}
 				}
 				got.Ann = maskNow(got.Ann, key, hadCreated, t0, t1)
-				obs = fmt.Sprintf("OK %s:%s:%s %s EV %s BYTES %s", common.Hex(desc.MediaType), common.Hex(desc.ArtifactType),
-					showAnn(maskNow(desc.Annotations, key, hadCreated, t0, t1)), got.String(), ev, common.Hex(string(shown)))
+				// the descriptor's size, shifted by the length difference of the placeholder when the clock's value was masked
+				size := desc.Size + int64(len(shown)-len(stored))
+				obs = fmt.Sprintf("OK %s:%s:%s %s EV %s SIZE %d BYTES %s", common.Hex(desc.MediaType), common.Hex(desc.ArtifactType),
+					showAnn(maskNow(desc.Annotations, key, hadCreated, t0, t1)), got.String(), ev, size, common.Hex(string(shown)))
 			}
 		}
 
